@@ -8,10 +8,13 @@
    described by its declared inputs, declared outputs, scratch root, query file and
    whether results are to be stored in the query file (obsm_key set).
 
-   The acceptor's state is (fs, created, fresh_dirs, owned, done) — DESIGN A.7:
+   The acceptor's state is (fs, created, fresh_dirs, owned, new, names, done) — DESIGN A.7:
      created     paths that exist now and were created by this run
      fresh_dirs  directories created by this run (with a name absent before)
      owned       declared outputs this run has created or truncated at least once
+     new         declared outputs that were ABSENT when this run created them (and that
+                 it has not removed since): the only declared outputs it may remove again
+     names       the names this run has made directly in the scratch root so far
    Rules (error codes in brackets):
      OpenR p        p is an input or was created by this run                      [1]
      OpenW p        (no O_CREAT) p was created by this run, or p is the query
@@ -23,15 +26,42 @@
                     absent before                                                 [3]
      Mkdir p        only at a fresh location, name absent before                  [3]
      Unlink/Rmdir   only what this run created                                    [6]
-     Rename p q     p own file; q own file, declared output or fresh location     [3,6]
+                    ... and a declared output only if it was ABSENT when this run
+                    created it (run_mapping's probe `if not pth.exists(): write
+                    'junk'; unlink`): an output that an earlier run left is
+                    overwritten, never removed                                    [13]
+     Rename p q     p own file (for a declared output: as Unlink [13]); q own file,
+                    declared output or fresh location                             [3,6]
                     (directories are never renamed by the stages: [10])
      ListDir p      only a fresh directory of this run                            [5]
+     Stat p r       an OBSERVATION without effect (stat / lstat / access / exists() /
+                    is_file() / opening a directory / a call that failed with ENOENT or
+                    EEXIST); r is what the run was told: absent, file, directory, or
+                    "exists" (kind not told).  Allowed on the declared paths (scratch
+                    root, query, inputs, outputs) and their ancestors, and on everything
+                    at or below a name this run itself made in the scratch root (also
+                    after it removed it again).  Anything else is an entry -- or the
+                    absence of an entry -- of the shared scratch/output directories that
+                    this run did not make: a run that looks there can depend on what an
+                    earlier run left                                              [12]
+                    (r contradicts the model's file system: [4])
      Return ok      last operation; when ok, or when the stage promises to clean
                     up after an error (mapping), nothing created under scratch
                     may be left                                                   [7]
      an operation impossible in the model's file system (the harness' snapshot or
      parser is wrong)                                                             [4]
      operation after Return [8]; trace without Return [9].
+
+   The content ids that Create / OpenW write are PART OF THE TRACE (the harness numbers the
+   writes): the acceptor constrains WHERE a run reads, looks and writes, not WHAT it writes.
+   That what is written is computed from the inputs only is data flow inside the Python
+   process; it is covered by the tie (digests of the outputs across histories), not here.
+
+   PROGRAMS (bottom of the file): a trace is what ONE run did on ONE file system.  A
+   program is a function from the history of observations (what its OpenR / ListDir /
+   Stat operations returned) to its next operation; `prun` runs it on a file system
+   through the acceptor and records the trace.  Stale independence is stated for
+   programs (Props/C19.v: c19_stale_independence_program).
    Definitions only. *)
 From Coq Require Import ZArith List Bool.
 From CTM Require Import Base.Sx.
@@ -94,9 +124,15 @@ Record bk := {
   b_created : list path;
   b_dirs : list path;
   b_owned : list path;
+  b_new : list path;
+  b_names : list Z;
   b_done : bool
 }.
-Definition bk0 : bk := {| b_created := []; b_dirs := []; b_owned := []; b_done := false |}.
+Definition bk0 : bk :=
+  {| b_created := []; b_dirs := []; b_owned := []; b_new := []; b_names := []; b_done := false |}.
+
+(* what an observation tells: nothing there, a file, a directory, or just "something" *)
+Inductive probe := PAbsent | PFile | PDir | PExists.
 
 Inductive op :=
 | OpenR (p : path)
@@ -107,7 +143,8 @@ Inductive op :=
 | Rmdir (p : path)
 | Rename (p q : path)
 | ListDir (p : path)
-| Return (ok : bool).
+| Return (ok : bool)
+| Stat (p : path) (r : probe).
 
 Inductive res (A : Type) := Ok (a : A) | Err (code : Z).
 Arguments Ok {A} a.
@@ -122,13 +159,59 @@ Definition creatable (c : config) (b : bk) (p : path) : bool :=
   child_of (c_scratch c) p || existsb (fun d => child_of d p) (b_dirs b).
 
 Definition with_created (b : bk) (l : list path) : bk :=
-  {| b_created := l; b_dirs := b_dirs b; b_owned := b_owned b; b_done := b_done b |}.
+  {| b_created := l; b_dirs := b_dirs b; b_owned := b_owned b; b_new := b_new b;
+     b_names := b_names b; b_done := b_done b |}.
 Definition with_owned (b : bk) (l : list path) : bk :=
-  {| b_created := b_created b; b_dirs := b_dirs b; b_owned := l; b_done := b_done b |}.
+  {| b_created := b_created b; b_dirs := b_dirs b; b_owned := l; b_new := b_new b;
+     b_names := b_names b; b_done := b_done b |}.
 Definition with_dirs (b : bk) (l : list path) : bk :=
-  {| b_created := b_created b; b_dirs := l; b_owned := b_owned b; b_done := b_done b |}.
+  {| b_created := b_created b; b_dirs := l; b_owned := b_owned b; b_new := b_new b;
+     b_names := b_names b; b_done := b_done b |}.
+Definition with_new (b : bk) (l : list path) : bk :=
+  {| b_created := b_created b; b_dirs := b_dirs b; b_owned := b_owned b; b_new := l;
+     b_names := b_names b; b_done := b_done b |}.
+Definition with_names (b : bk) (l : list Z) : bk :=
+  {| b_created := b_created b; b_dirs := b_dirs b; b_owned := b_owned b; b_new := b_new b;
+     b_names := l; b_done := b_done b |}.
 Definition finished (b : bk) : bk :=
-  {| b_created := b_created b; b_dirs := b_dirs b; b_owned := b_owned b; b_done := true |}.
+  {| b_created := b_created b; b_dirs := b_dirs b; b_owned := b_owned b; b_new := b_new b;
+     b_names := b_names b; b_done := true |}.
+
+(* names made directly in the scratch root *)
+Definition top_name (c : config) (p : path) : list Z :=
+  match strip (c_scratch c) p with Some [n] => [n] | _ => [] end.
+Definition named (c : config) (b : bk) (p : path) : bk := with_names b (top_name c p ++ b_names b).
+
+Definition in_cone (c : config) (N : list Z) (p : path) : bool :=
+  existsb (fun n => is_prefix (c_scratch c ++ [n]) p) N.
+
+(* the declared paths of a run *)
+Definition declared (c : config) : list path := c_query c :: c_inputs c ++ c_outputs c.
+(* what a run may look at without reading it: a declared path (or the scratch root) or an
+   ancestor of one ... *)
+Definition kregion (c : config) (p : path) : bool :=
+  existsb (is_prefix p) (c_scratch c :: declared c).
+(* ... or anything at or below a name it made itself in the scratch root *)
+Definition statable (c : config) (b : bk) (p : path) : bool :=
+  kregion c p || in_cone c (b_names b) p.
+
+Definition kind_of (e : option (kind * Z)) : probe :=
+  match e with None => PAbsent | Some (KFile, _) => PFile | Some (KDir, _) => PDir end.
+(* is the answer r consistent with what is there (k = kind_of (lookup f p))? *)
+Definition probe_ok (k r : probe) : bool :=
+  match r, k with
+  | PAbsent, PAbsent | PFile, PFile | PDir, PDir => true
+  | PExists, PAbsent => false
+  | PExists, _ => true
+  | _, _ => false
+  end.
+
+(* a declared output that is ABSENT when this run creates it may be removed again *)
+Definition new_out (e : option (kind * Z)) (p : path) (l : list path) : list path :=
+  match e with None => add p l | Some _ => l end.
+(* may this run remove its own path p? not a declared output that was there before *)
+Definition removable (c : config) (b : bk) (p : path) : bool :=
+  negb (mem p (c_outputs c)) || mem p (b_new b).
 
 Definition is_file (e : option entry) : bool :=
   match e with Some (KFile, _) => true | _ => false end.
@@ -168,11 +251,12 @@ Definition decide (c : config) (f : fs) (b : bk) (o : op) : res (eff * bk) :=
       else if mem p (c_outputs c) then
         if trunc || mem p (b_owned b) then
           Ok (ESet p (KFile, cid),
-              with_owned (with_created b (add p (b_created b))) (add p (b_owned b)))
+              with_new (with_owned (with_created b (add p (b_created b))) (add p (b_owned b)))
+                       (new_out (lookup f p) p (b_new b)))
         else Err 11
       else if creatable c b p then
         match lookup f p with
-        | None => Ok (ESet p (KFile, cid), with_created b (add p (b_created b)))
+        | None => Ok (ESet p (KFile, cid), named c (with_created b (add p (b_created b))) p)
         | Some _ => Err 3
         end
       else Err 3
@@ -181,13 +265,16 @@ Definition decide (c : config) (f : fs) (b : bk) (o : op) : res (eff * bk) :=
       else if creatable c b p then
         match lookup f p with
         | None => Ok (ESet p (KDir, 0),
-                      with_dirs (with_created b (add p (b_created b))) (add p (b_dirs b)))
+                      named c (with_dirs (with_created b (add p (b_created b))) (add p (b_dirs b))) p)
         | Some _ => Err 3
         end
       else Err 3
   | Unlink p =>
       if mem p (b_created b) then
-        if is_file (lookup f p) then Ok (EDel p, with_created b (del p (b_created b)))
+        if is_file (lookup f p) then
+          if removable c b p then
+            Ok (EDel p, with_new (with_created b (del p (b_created b))) (del p (b_new b)))
+          else Err 13
         else Err 4
       else Err 6
   | Rmdir p =>
@@ -202,19 +289,25 @@ Definition decide (c : config) (f : fs) (b : bk) (o : op) : res (eff * bk) :=
         match lookup f p with
         | Some (KFile, cid) =>
             if path_eqb p q then Ok (ENone, b)
-            else if mem q (b_created b) then
-              if is_file (lookup f q) then
-                Ok (EMove p q (KFile, cid), with_created b (del p (b_created b)))
-              else Err 4
-            else if mem q (c_outputs c) then
-              Ok (EMove p q (KFile, cid),
-                  with_owned (with_created b (add q (del p (b_created b)))) (add q (b_owned b)))
-            else if creatable c b q then
-              match lookup f q with
-              | None => Ok (EMove p q (KFile, cid), with_created b (add q (del p (b_created b))))
-              | Some _ => Err 3
-              end
-            else Err 3
+            else if removable c b p then
+              if mem q (b_created b) then
+                if is_file (lookup f q) then
+                  Ok (EMove p q (KFile, cid),
+                      with_new (with_created b (del p (b_created b))) (del p (b_new b)))
+                else Err 4
+              else if mem q (c_outputs c) then
+                Ok (EMove p q (KFile, cid),
+                    with_new (with_owned (with_created b (add q (del p (b_created b)))) (add q (b_owned b)))
+                             (new_out (lookup f q) q (del p (b_new b))))
+              else if creatable c b q then
+                match lookup f q with
+                | None => Ok (EMove p q (KFile, cid),
+                              named c (with_new (with_created b (add q (del p (b_created b))))
+                                                (del p (b_new b))) q)
+                | Some _ => Err 3
+                end
+              else Err 3
+            else Err 13
         | Some (KDir, _) => Err 10
         | None => Err 4
         end
@@ -226,6 +319,10 @@ Definition decide (c : config) (f : fs) (b : bk) (o : op) : res (eff * bk) :=
         if forallb (fun p => negb (under (c_scratch c) p)) (b_created b ++ b_dirs b)
         then Ok (ENone, finished b) else Err 7
       else Ok (ENone, finished b)
+  | Stat p r =>
+      if statable c b p then
+        if probe_ok (kind_of (lookup f p)) r then Ok (ENone, b) else Err 4
+      else Err 12
   end.
 
 Definition step (c : config) (f : fs) (b : bk) (o : op) : res (fs * bk) :=
@@ -258,8 +355,6 @@ Fixpoint exec (c : config) (f : fs) (b : bk) (t : list op) : res (fs * bk) :=
   end.
 
 (* names this trace makes directly in the scratch root *)
-Definition top_name (c : config) (p : path) : list Z :=
-  match strip (c_scratch c) p with Some [n] => [n] | _ => [] end.
 Definition op_fresh (c : config) (o : op) : list Z :=
   match o with
   | Create p _ _ | Mkdir p => top_name c p
@@ -267,9 +362,6 @@ Definition op_fresh (c : config) (o : op) : list Z :=
   | _ => []
   end.
 Definition fresh_names (c : config) (t : list op) : list Z := flat_map (op_fresh c) t.
-
-Definition in_cone (c : config) (N : list Z) (p : path) : bool :=
-  existsb (fun n => is_prefix (c_scratch c ++ [n]) p) N.
 
 (* did the run end with a Return that obliges it to have cleaned up? *)
 Definition must_be_clean (c : config) (t : list op) : bool :=
@@ -314,13 +406,68 @@ Definition rlist (c : config) : list path :=
   c_inputs c ++ c_outputs c ++ (if c_obsm c then [c_query c] else []).
 
 (* two runs may share scratch and output directories: same scratch root, different
-   fresh names, and neither writes a declared file the other reads or writes *)
+   fresh names, and neither writes a declared file the other reads, writes or may look at
+   (kregion: the declared paths of the other and their ancestors) *)
 Definition compatb (c1 : config) (N1 : list Z) (c2 : config) (N2 : list Z) : bool :=
   path_eqb (c_scratch c1) (c_scratch c2)
   && forallb (fun n => negb (existsb (Z.eqb n) N2)) N1
-  && forallb (fun p => negb (mem p (rlist c2))) (wlist c1)
-  && forallb (fun p => negb (mem p (rlist c1))) (wlist c2)
+  && forallb (fun p => negb (mem p (rlist c2)) && negb (kregion c2 p)) (wlist c1)
+  && forallb (fun p => negb (mem p (rlist c1)) && negb (kregion c1 p)) (wlist c2)
   && outside_scratch c1 && outside_scratch c2.
+
+(* ---- programs: the next operation as a function of what has been observed so far ---- *)
+(* what an operation returns to the run that makes it *)
+Inductive obs :=
+| ONone                                (* an effect; nothing is learnt (it succeeded) *)
+| OContent (e : option entry)          (* OpenR: what is read *)
+| ONames (l : list Z)                  (* ListDir: the names in the directory, sorted *)
+| OKind (k : probe).                   (* Stat: absent / file / directory *)
+
+Fixpoint name_insert (x : Z) (l : list Z) : list Z :=
+  match l with
+  | [] => [x]
+  | y :: t => if x <? y then x :: l else if x =? y then l else y :: name_insert x t
+  end.
+(* the names n with an entry at d ++ [n], ascending, each once *)
+Definition listing (f : fs) (d : path) : list Z :=
+  fold_right (fun kv acc => match strip d (fst kv) with Some [n] => name_insert n acc | _ => acc end) [] f.
+
+Definition observe (f : fs) (o : op) : obs :=
+  match o with
+  | OpenR p => OContent (lookup f p)
+  | ListDir p => ONames (listing f p)
+  | Stat p _ => OKind (kind_of (lookup f p))
+  | _ => ONone
+  end.
+
+(* the answer slot of a Stat is filled in by the file system, not by the program *)
+Definition fill (f : fs) (o : op) : op :=
+  match o with Stat p _ => Stat p (kind_of (lookup f p)) | _ => o end.
+
+Definition program := list obs -> op.
+
+(* run a program for at most `fuel` operations: (final fs, book-keeping, trace, observations);
+   it stops after its Return; a refused operation refuses the run *)
+Fixpoint prun (c : config) (pg : program) (fuel : nat) (f : fs) (b : bk) (h : list obs)
+  : res (fs * bk * list op * list obs) :=
+  match fuel with
+  | O => Ok (f, b, [], h)
+  | S n =>
+      if b_done b then Ok (f, b, [], h) else
+      let o := fill f (pg h) in
+      match step c f b o with
+      | Ok (f', b') =>
+          match prun c pg n f' b' (h ++ [observe f o]) with
+          | Ok (g, b2, t, h2) => Ok (g, b2, o :: t, h2)
+          | Err e => Err e
+          end
+      | Err e => Err e
+      end
+  end.
+
+(* the run of a program is accepted: it returned within the fuel *)
+Definition paccept (c : config) (pg : program) (fuel : nat) (f : fs) (g : fs) (t : list op) (h : list obs) : Prop :=
+  exists b, prun c pg fuel f bk0 [] = Ok (g, b, t, h) /\ b_done b = true.
 
 (* ---- wire ---- *)
 Definition sx_path : sx -> option path := sx_LZ.
@@ -367,6 +514,13 @@ Definition sx_op (x : sx) : option op :=
       | Some p' =>
           if k =? 1 then (match a with I cid => Some (OpenW p' cid) | _ => None end)
           else if k =? 6 then (match sx_path a with Some q => Some (Rename p' q) | None => None end)
+          else if k =? 9 then
+            (match a with
+             | I r => if r =? 0 then Some (Stat p' PAbsent) else if r =? 1 then Some (Stat p' PFile)
+                      else if r =? 2 then Some (Stat p' PDir) else if r =? 3 then Some (Stat p' PExists)
+                      else None
+             | _ => None
+             end)
           else None
       | None => None
       end
